@@ -16,7 +16,7 @@ RULE = ("case 'exp' = (matrix, ordered pair of writers (w1, w2) out of arxml, cs
         "Matrices include long names (> 32 characters), free signals, cycle times, duplicate frame names, receiver lists not yet "
         "propagated to the frames, multiplex groups with many values, attributes with definitions. quick: every ordered pair on 1 "
         "matrix per shard + random pairs; thorough: every ordered pair on 20 matrices. case 'seeds' = the same exports in "
-        "The process state decoding depends on (decimal context) is compared before and after every export; comments over two lines occur. subprocesses under 6 (thorough: 12) values of PYTHONHASHSEED, always including a frame with 15 multiplex groups. One matrix in seven has a frame whose length was never set (0) although it has signals. Non-trivial = every distinct case (each exercises >= 1 writer).")
+        "The 'seeds' case also exports every matrix in the long-running process after a variant of it (same names, other value texts, comments, units) and compares with a fresh process. The process state decoding depends on (decimal context) is compared before and after every export; comments over two lines occur. subprocesses under 6 (thorough: 12) values of PYTHONHASHSEED, always including a frame with 15 multiplex groups. One matrix in seven has a frame whose length was never set (0) although it has signals. Non-trivial = every distinct case (each exercises >= 1 writer).")
 EXHAUSTIVE = {"quick": False, "thorough": False}
 PARTIAL = ["the writers' footprint on their argument is recorded in the model by hand (copiesFirst/normalise); that the record is complete "
            "is established only by this correspondence check - the theorems carry least here",
@@ -154,6 +154,27 @@ def observe(case):
                 raise RuntimeError("export worker failed: " + p.stderr.decode()[-500:])
             results.append(json.loads(p.stdout.decode().strip().split("\n")[-1]))
         differs = sorted({w for r in results[1:] for w in r if r[w] != results[0][w]})
+        # ... and on nothing the process exported before: in this (long-running) process a variant of each matrix (same names,
+        # other value texts, comments and lengths) is exported first, then the matrix itself; a fresh process exported only the matrix
+        import copy as pycopy
+        import hashlib
+        for k, d in enumerate(c["ms"]):
+            v = pycopy.deepcopy(d)
+            for f in v["frames"]:
+                f["comment"] = "variant"
+                for sg in f["signals"]:
+                    sg["values"] = {key: val + "_variant" for key, val in sg.get("values", {}).items()}
+                    sg["unit"] = "var"
+                    sg["comment"] = "variant comment"
+            for key, (fmt, opts) in WRITERS.items():
+                try:
+                    M.export_bytes(build(v), fmt, **opts)
+                    h = hashlib.sha256(M.export_bytes(build(d), fmt, **opts)).hexdigest()
+                except Exception as e:  # noqa
+                    h = "EXC:" + type(e).__name__
+                if h != results[0][key][k]:
+                    differs.append("after-a-variant:" + key)
+        differs = sorted(set(differs))
         return {"same": not differs, "differs": differs}
     f1, o1 = WRITERS[c["w1"]]
     f2, o2 = WRITERS[c["w2"]]
